@@ -15,6 +15,7 @@ PROBES = {
     'ProbeS3': [('Copy', '1'), ('Cast', '1'), ('Cast', '0')],
 }
 LOOKUPS = 'IPMQipmqJKEH'
+LIFE = 'NWXY'
 
 def table():
     import importlib, g_disp
@@ -228,6 +229,117 @@ class Gen:
             for tok in seen[:3]: lines.append(f'i {tid} {tok}')
         return Case(name, lines)
 
+    # ---- (5) life cycle of run-time types: construction on every kind of storage, re-construction IN PLACE, del
+    def life_item(self, c, flags=None):
+        it, m = self.item(c)
+        return (c, it, m)
+    def life_row(self, pool, slot_cls, cold, n_hint=None):
+        """an instance list: a random subset of the cached classes (one per cache slot, library class or a same-named
+        run-time twin), some uncached ones, some duplicates; random order"""
+        r = self.rng
+        x = r.random()
+        if n_hint is not None: n = n_hint
+        elif x < 0.07: n = 0
+        elif x < 0.15: n = 1
+        else: n = None
+        row = []
+        if n is None:
+            p = r.choice([0.25, 0.5, 0.8, 1.0])
+            for cands in slot_cls:
+                if r.random() < p: row.append(self.life_item(r.choice(cands)))
+            for _ in range(r.randrange(0, 5)): row.append(self.life_item(r.choice(cold)))
+            for _ in range(r.randrange(0, 3)):
+                if row: row.append(self.life_item(r.choice(row)[0]))          # duplicate class name: the first one wins
+            r.shuffle(row)
+        else:
+            every = [c for cands in slot_cls for c in cands] + cold
+            for _ in range(n): row.append(self.life_item(r.choice(every)))
+        return row
+    def life_mutate(self, row, pool, slot_cls, cold):
+        """another declaration for the same storage: classes removed, added, member flags / order changed (the instance
+        pointers always change: every construction gets new instance objects)"""
+        r = self.rng
+        x = r.random()
+        if x < 0.08: return []
+        if x < 0.16: return [self.life_item(c) for c, it, m in row]                       # same classes, same order, new pointers
+        if x < 0.24: return self.life_row(pool, slot_cls, cold)                           # unrelated
+        keep = [self.life_item(c) for c, it, m in row if r.random() < r.choice([0.3, 0.6, 0.9])]
+        for cands in slot_cls:
+            if r.random() < 0.2: keep.append(self.life_item(r.choice(cands)))
+        for _ in range(r.randrange(0, 3)): keep.append(self.life_item(r.choice(cold)))
+        if r.random() < 0.7: r.shuffle(keep)
+        elif r.random() < 0.5: keep.reverse()
+        return keep
+    def life_lookups(self, tid, row, slot_cls, cold, extra, p_all):
+        """lookups on tid: every cached class (prob. p_all: all 18 slots, else a random subset), uncached and removed ones"""
+        r = self.rng
+        want = []
+        allslots = r.random() < p_all
+        for cands in slot_cls:
+            if allslots or r.random() < 0.4: want.append(r.choice(cands))
+        want += r.sample(cold, min(len(cold), r.randrange(1, 4)))
+        want += [c for c in extra if r.random() < 0.7]
+        r.shuffle(want)
+        ops = []
+        for c in want:
+            # the member count of the instance the type declares for this class name (first triple with that name)
+            first = next(((cc, m) for cc, it, m in row if cc[2] == c[2]), None)
+            k = r.randrange(max(first[1], 1)) if first else 0
+            for _ in range(2 if r.random() < 0.15 else 1):                          # sometimes twice: cold then warm
+                y = r.random()
+                if y < 0.45: ops.append(f'{r.choice("Ii")} {tid} {c[0]}')
+                elif y < 0.75: ops.append(f'{r.choice("Mm")} {tid} {c[0]} {k}')
+                elif y < 0.85: ops.append(f'{r.choice("Pp")} {tid} {c[0]}')
+                else: ops.append(f'{r.choice("Qq")} {tid} {c[0]} {k}')
+        return ops
+    def lifecycle_case(self, name, ntypes, rounds, big=False):
+        r = self.rng
+        lines = self.prelude()
+        pool = self.class_pool(lines, 14)
+        pool = [c for c in pool if c[2] != 'Terminal']                                   # known finding KF-C08-terminal-message
+        # one candidate list per cache slot: the library class and every run-time class object that carries its name
+        slot_cls = [[c for c in pool if c[2] == nm] for nm in self.cached]
+        cold = [c for c in pool if c[2] not in self.cached]
+        gc_live = 0
+        sizes = [0, 0, 8, 16, 24, 4096]
+        for t in range(ntypes):
+            tid = t + 1
+            mode = r.choice(['raw', 'root', 'alloc', 'junk', 'junk', 'gc' if gc_live < 40 else 'raw'])
+            if mode == 'gc': gc_live += 1
+            row = self.life_row(pool, slot_cls, cold, n_hint=(r.choice([256, 255, 200]) if big and r.random() < 0.5 else None))
+            lines.append((f'N {tid} {mode} L{tid}_{name} {r.choice(sizes)} ' + ' '.join(it for c, it, m in row)).rstrip())
+            removed = []
+            for rd in range(rounds):
+                # cold/warm state before the re-construction: nothing, some, or every slot
+                x = r.random()
+                if x < 0.1: pass
+                else: lines += self.life_lookups(tid, row, slot_cls, cold, removed, 0.6)
+                if r.random() < 0.1: lines.append(f'R {tid}')
+                if r.random() < 0.1: lines.append(f'Y {tid} {r.choice(["copy", "assign"])}')
+                if r.random() < 0.12:
+                    # refused: more than CELLO_MAX_INSTANCES instances; the old declaration stays in force
+                    every = [c for cands in slot_cls for c in cands]
+                    over = [self.life_item(r.choice(every)) for _ in range(r.choice([257, 258, 300]))]
+                    lines.append(f'W {tid} Over{tid} {r.choice(sizes)} ' + ' '.join(it for c, it, m in over))
+                    lines += self.life_lookups(tid, row, slot_cls, cold, removed, 0.3)
+                new = self.life_mutate(row, pool, slot_cls, cold)
+                if big and r.random() < 0.4: new = self.life_row(pool, slot_cls, cold, n_hint=r.choice([256, 255, 129, 3]))
+                gone = {c[0]: c for c, it, m in row if not any(cc[2] == c[2] for cc, it2, m2 in new)}
+                removed = list(gone.values())
+                row = new
+                lines.append((f'W {tid} L{tid}_{name}_{rd} {r.choice(sizes)} ' + ' '.join(it for c, it, m in row)).rstrip())
+                lines += self.life_lookups(tid, row, slot_cls, cold, removed, 0.8)
+                if r.random() < 0.2: lines.append(f'K {tid} {r.choice([tid, 0])}')
+            y = r.random()
+            if y < 0.5:
+                lines.append(f'X {tid}')
+                if mode == 'gc': gc_live -= 1
+                if y < 0.2:
+                    row = self.life_row(pool, slot_cls, cold)
+                    lines.append((f'N {tid} {r.choice(["raw", "alloc", "junk"])} L{tid}b_{name} 0 ' + ' '.join(it for c, it, m in row)).rstrip())
+                    lines += self.life_lookups(tid, row, slot_cls, cold, [], 0.5)
+        return Case(name, lines)
+
 class C08(Spec):
     id = 'C08'; engine = 'disp'; harness = 'h_disp'; driver = 'drv_disp'
     generators = ('Disp',)
@@ -237,8 +349,16 @@ class C08(Spec):
     technique = ('Lean 4 proof: invariant-based refinement of the lookup code (cache words, memoised class pointers, two-pass scan) to '
                  '"first declared triple with that class name", for all type records, histories and interleavings of atomic steps; the cache table, '
                  'layout constants, declared matrix and the texts of the modelled functions are regenerated from the source on every run; '
+                 'Type_New modelled word by word on a raw storage and proved to produce the fresh type object from ANY previous contents, so the '
+                 'theorem covers histories with re-construction in place; '
                  'white-box differential check against the real library plus a direct oracle from the source-text matrix and a raw record scan')
-    level_text = ('Theorems C08_lookup_exact / C08_current_source: for every type record (any number of triples in any order, duplicate class names, '
+    level_text = ('Theorem C08_lookup_exact: for every run-time type object and every history that interleaves lookups with re-constructions in place '
+                  '(destruct + construct with any other instance list, or a refused one with > CELLO_MAX_INSTANCES), every lookup returns what the '
+                  'declaration CURRENTLY in force declares; C08_type_new_any_storage / C08_reconstruct_in_place: Type_New, modelled word by word, writes '
+                  'the fresh type object (all CELLO_CACHE_NUM cache words NULL, __Name/__Size, triples with NULL cls words, terminator) from ANY '
+                  'previous contents of the storage and so re-establishes the invariant "cache word empty or the current declaration\'s instance"; '
+                  'C08_storage_view: the raw words read back as the record. '
+                  'Theorems C08_lookup_exact_record / C08_current_source: for every type record (any number of triples in any order, duplicate class names, '
                   'distinct class objects sharing a name), every class and every history of lookups, cold or warm, '
                   'instance/type_instance/implements/implements_method/method lookups return exactly what the first triple with that class name '
                   'declares (a function of the declaration only), and the cache/memo invariant is preserved; C08_classerror_partial: ClassError exactly '
@@ -258,8 +378,14 @@ class C08(Spec):
             'with white-box cache resets; (2) run-time types created with new_raw_with(Type, …): 0..257 instances drawn with repetition from '
             'library and run-time classes (same-name twins), random member flags, random lookups/casts/bad-self probes; (3) four statically declared '
             'probe types (duplicates, NULL members, own cast member, all cached classes) with cache/memo/header dumps after every op; (4) N threads '
-            'doing first lookups on caches reset before every round. non-trivial = a lookup whose observation is a found instance, an exception, a '
-            'cast result or a thread run; distinct = distinct (declared row of the type, op without type number, observation).')
+            'doing first lookups on caches reset before every round; (5) the life cycle of run-time types through the public API: '
+            'new_raw/new_root/new/alloc+construct/construct on junk-filled caller storage, destruct+construct IN PLACE with a mutated instance list '
+            '(classes removed, added, reordered, flags changed; instance pointers always new; 0..256 instances; refused with 257+), copy/assign '
+            'refused, del, each interleaved with lookups of the classes of every cache slot 0..17 (library class or same-named run-time twin) and of '
+            'uncached and removed classes in cold and warm states; the harness keeps the declaration in force and compares every lookup with it. '
+            'non-trivial = a lookup whose observation is a found instance, an exception, a '
+            'cast result or a thread run; distinct = distinct (declared row of the type, op without type number, observation); a re-construction counts by '
+            '(declaration before, declaration after, outcome).')
     trusted_base = ('translate/g_disp.py (regex/bracket matching over src/*.c, include/Cello.h): cache table, constants, declared matrix, function texts',
                     'harness/h_disp.c + lean/Driver/Disp.lean (correspondence is testing)',
                     'word-atomic loads/stores of pointer-sized words; dlsym to resolve type objects by name')
@@ -267,6 +393,8 @@ class C08(Spec):
                    'type records are well-formed: every triple has a non-NULL name and instance pointer, the list ends with the NULL triple (what Cello()/Type_New build)',
                    'member offsets are offsetof() values inside the class struct (an out-of-struct offset is undefined behaviour and is not generated)',
                    'a cached class is never looked up on a `self` that is not a type object (Type_Instance reads the cache word before any check)',
+                   'a type object that other types use as a CLASS (its name is compared, its address memoised) is not re-constructed or deleted while they live: only types that are not used as classes go through W/X',
+                   'storage handed to construct has the size Type_Alloc reserves (CELLO_NBUILTINS + CELLO_MAX_INSTANCES + 1 cells) and a header naming Type; no lookup is made on a deleted type; GC-managed types (new) are kept reachable from the stack',
                    'default build (CELLO_CACHE on, checks on); loads and stores of pointer-sized words are atomic')
     def cases(self, rng, tier, boost=1):
         tab = table()
@@ -281,6 +409,10 @@ class C08(Spec):
             cs.append(g.runtime_case(f'rt{boost}_{i}', per, nops=40 if quick else 60))
         for i in range((2 if quick else 12) * boost):
             cs.append(g.runtime_case(f'big{boost}_{i}', 4, big=True, nops=80))
+        for i in range((10 if quick else 160) * boost):
+            cs.append(g.lifecycle_case(f'life{boost}_{i}', 6 if quick else 8, 3 if quick else 4))
+        for i in range((1 if quick else 8) * boost):
+            cs.append(g.lifecycle_case(f'lifebig{boost}_{i}', 3, 2, big=True))
         for i in range((2 if quick else 10) * boost):
             cs.append(g.thread_case(f'thr{boost}_{i}', 16, 60 if quick else 600, 6 if quick else 10))
         if boost > 1:
@@ -294,12 +426,23 @@ class C08(Spec):
         for op, o in zip(ops, obs):
             t = op.split(' ')
             if t[0] in 'BST' and len(t) >= 3: rows[t[1]] = ' '.join(t[3:])
+            w = o.split(' ')
+            if t[0] == 'N' and len(t) >= 5 and len(w) > 4 and w[4] == 'ok': rows[t[1]] = ' '.join(t[5:])
+            if t[0] == 'W' and len(t) >= 4 and len(w) > 4 and w[4] == 'ok':            # a refused W keeps the old declaration
+                yield op, o, dict(rows, **{'old:' + t[1]: rows.get(t[1], '')})
+                rows[t[1]] = ' '.join(t[4:])
+                continue
             yield op, o, rows
     def nontrivial_items(self, case, c_out, m_out):
         items = set()
         for op, o, rows in self._walk(case, c_out):
             t = op.split(' ')
-            if t[0] not in LOOKUPS or o == 'O bad-op': continue
+            if o == 'O bad-op': continue
+            if t[0] == 'W':
+                # a re-construction in place: distinct by (declaration before, declaration after / refusal, cache state before)
+                w = o.split(' ')
+                items.add(hash(('W', rows.get('old:' + t[1], rows.get(t[1], '')), ' '.join(t[4:]), w[4] if len(w) > 4 else ''))); continue
+            if t[0] not in LOOKUPS: continue
             res = o.split(' ')[2] if len(o.split(' ')) > 2 else ''
             if t[0] in 'IiJ' and res == 'NULL': continue
             if t[0] in 'PpQq' and res == '0': continue
@@ -307,9 +450,30 @@ class C08(Spec):
             items.add(hash((rows.get(tid, ''), t[0], ' '.join(t[2:]) if t[0] != 'E' else t[1] + ' ' + ' '.join(t[3:]), res)))
         return items
     def stats(self, case, c_out, m_out, acc):
+        slot_of = {}
+        for l in case.lines:
+            if l.startswith('G '): slot_of = {x.split(':')[1]: x.split(':')[0] for x in l.split(' ')[1:]}
+        last_c = {}; after_w = set()
+        def bump(k, n=1): acc[k] = acc.get(k, 0) + n
         for op, o, rows in self._walk(case, c_out):
             t = op.split(' ')
             acc['op_' + t[0]] = acc.get('op_' + t[0], 0) + 1
+            # life cycle: which cache slots were warm when a type was re-constructed in place, which were looked up afterwards
+            if t[0] in 'NW' and o != 'O bad-op':
+                w = o.split(' ')
+                if t[0] == 'N' and len(t) > 2: bump('construct_' + t[2])
+                if t[0] == 'W':
+                    if len(w) > 4 and w[4] != 'ok': bump('reconstruct_refused')
+                    else:
+                        warm = last_c.get(t[1], [])
+                        bump('reconstruct_on_warm_cache' if warm else 'reconstruct_on_cold_cache')
+                        for sl in warm: bump('reconstruct_warm_slot_' + sl)
+                        after_w.add(t[1])
+            if t[0] in 'IiMm' and len(t) > 2 and t[1] in after_w and t[2].startswith('b.') and t[2][2:] in slot_of:
+                bump('lookup_after_reconstruct_slot_' + slot_of[t[2][2:]])
+            if ' c=' in o and t[0] != 'E' and len(t) > 1:
+                cpart = o.split(' c=')[1].split(' ')[0]
+                last_c[t[1]] = [x.split(':')[0] for x in cpart.split(',') if x]
             if t[0] == 'T':
                 n = len(t) - 3; acc['max_instances'] = max(acc.get('max_instances', 0), n)
                 names = [x.split(':')[0] for x in t[3:]]
